@@ -86,15 +86,20 @@ type state struct {
 	pollsDone  int
 	t1done     bool
 	cond       *sync.Cond
-	pausedPoll int // polls that ran entirely inside the paused window
-	preferOn   bool
-	stop       chan struct{} // closed at cleanup: T1 stops working
-	closedSeen bool          // a poll reported ErrClientClosed
-	firstFetch int           // broker index of the first delivered Fetch request (-1: none yet)
-	topicID    [16]byte
-	lastFetch  time.Time // virtual instant of the last delivered Fetch request
-	sameTick   int       // consecutive Fetch requests delivered within 1 ms of the previous one
-	moved      string
+	// Generated scripts: pausedSince[p][k] is the sequence number taken after
+	// the pause of partition p returned (k=0 PauseFetchPartitions, k=1
+	// PauseFetchTopics); it is zeroed BEFORE the matching Resume is called.
+	pausedSince [2][2]int64
+	evict       map[int32]bool // brokers whose next incremental Fetch is answered FETCH_SESSION_ID_NOT_FOUND
+	pausedPoll  int            // polls that ran entirely inside the paused window
+	preferOn    bool
+	stop        chan struct{} // closed at cleanup: T1 stops working
+	closedSeen  bool          // a poll reported ErrClientClosed
+	firstFetch  int           // broker index of the first delivered Fetch request (-1: none yet)
+	topicID     [16]byte
+	lastFetch   time.Time // virtual instant of the last delivered Fetch request
+	sameTick    int       // consecutive Fetch requests delivered within 1 ms of the previous one
+	moved       string
 }
 
 func (st *state) missing() (out []string) {
@@ -152,7 +157,18 @@ func (st *state) doPoll(who string, n int, timeout time.Duration) (nrecs int) {
 	// Paused window: the poll began after PauseFetchPartitions returned and
 	// ended before ResumeFetchPartitions was called.
 	inPause := st.pauseRet != 0 && pl.start > st.pauseRet && st.resumeCall == 0
-	if inPause {
+	// Generated scripts: partition p was paused for the whole poll if a pause
+	// (of either kind) that returned before the poll began has not been
+	// followed by the call of its Resume by the time the poll returned.
+	var genPaused [2]string
+	for p := 0; p < 2; p++ {
+		for k, kind := range []string{"PauseFetchPartitions", "PauseFetchTopics"} {
+			if ps := st.pausedSince[p][k]; ps != 0 && pl.start > ps {
+				genPaused[p] = kind
+			}
+		}
+	}
+	if inPause || genPaused[0] != "" || genPaused[1] != "" {
 		st.pausedPoll++
 	}
 	for _, f := range fs {
@@ -181,6 +197,9 @@ func (st *state) doPoll(who string, n int, timeout time.Duration) (nrecs int) {
 					}
 					if inPause && p == 0 {
 						x.Violate("paused-returned", "poll #%d (%s, n=%d) began after PauseFetchPartitions(t/0) returned and ended before ResumeFetchPartitions was called, yet returned t/0@%d", len(st.polls)+1, who, n, r.Offset)
+					}
+					if genPaused[p] != "" {
+						x.Violate("paused-returned", "poll #%d (%s, n=%d) began after %s covering t/%d returned and ended before the matching Resume was called, yet returned t/%d@%d", len(st.polls)+1, who, n, genPaused[p], p, p, r.Offset)
 					}
 					o := r.Offset
 					switch {
@@ -297,6 +316,126 @@ func fetchFaults(x *netctl.Exec, dir string, key int16, c *netctl.Conn) []string
 	return nil
 }
 
+// newState builds what every scenario of the family shares: the cluster with
+// the pre-loaded log, the reference sets read back from it, the controlled
+// consumer configured from v (plus extra options) and the frame hook.
+func newState(x *netctl.Exec, v *variant, extra ...kgo.Opt) *state {
+	c := x.Cluster(2, kfake.SeedTopics(2, topic))
+	c.MoveTopicPartition(topic, 0, 0)
+	if v.oneSource {
+		c.MoveTopicPartition(topic, 1, 0)
+	} else {
+		c.MoveTopicPartition(topic, 1, 1)
+	}
+	preload(x, c)
+	st := &state{v: v, c: c, x: x, hooks: nscen.NewHookLedger(), firstFetch: -1}
+	if ti := c.TopicInfo(topic); ti != nil {
+		st.topicID = ti.TopicID
+	}
+	st.cond = sync.NewCond(&st.mu)
+	x.Data = st
+	for p := int32(0); p < 2; p++ {
+		st.raw[p] = nscen.ReadRaw(x, c, topic, p)
+		st.kind[p], st.value[p], st.expected[p], st.seen[p] = map[int64]string{}, map[int64]string{}, map[int64]bool{}, map[int64]int{}
+		st.last[p] = -1
+		visible, open := nscen.Committed(st.raw[p])
+		if len(open) > 0 {
+			x.Violate("harness:preload", "t/%d has open transactions after preload", p)
+		}
+		vis := map[int64]bool{}
+		for _, r := range visible {
+			vis[r.Offset] = true
+		}
+		ndata, nctl, nab := 0, 0, 0
+		for _, r := range st.raw[p] {
+			st.value[p][r.Offset] = r.Value
+			switch {
+			case r.Control:
+				st.kind[p][r.Offset] = "control"
+				nctl++
+			case v.rc && !vis[r.Offset]:
+				st.kind[p][r.Offset] = "aborted"
+				nab++
+			case r.Offset < st.startOf(p):
+				st.kind[p][r.Offset] = "before-start"
+			default:
+				st.kind[p][r.Offset] = "data"
+				st.expected[p][r.Offset] = true
+				ndata++
+			}
+			if !r.Control && !vis[r.Offset] && !v.rc {
+				nab++
+			}
+		}
+		if nctl != 2 || nab == 0 || ndata == 0 {
+			x.Violate("harness:preload", "t/%d: unexpected log shape: %d control, %d aborted, %d expected", p, nctl, nab, ndata)
+		}
+	}
+	opts := []kgo.Opt{
+		kgo.FetchMaxWait(500 * time.Millisecond),
+		kgo.WithHooks(st.hooks),
+	}
+	if v.starts != nil {
+		parts := map[int32]kgo.Offset{}
+		for p, o := range v.starts {
+			parts[p] = kgo.NewOffset().At(o)
+		}
+		opts = append(opts, kgo.ConsumePartitions(map[string]map[int32]kgo.Offset{topic: parts}))
+	} else {
+		opts = append(opts, kgo.ConsumeTopics(topic), kgo.ConsumeResetOffset(kgo.NewOffset().AtStart()))
+	}
+	if v.rc {
+		opts = append(opts, kgo.FetchIsolationLevel(kgo.ReadCommitted()))
+	}
+	if v.partBytes > 0 {
+		opts = append(opts, kgo.FetchMaxPartitionBytes(v.partBytes))
+	}
+	if v.metaAge > 0 {
+		opts = append(opts, kgo.MetadataMaxAge(v.metaAge))
+	}
+	if v.prefer {
+		opts = append(opts, kgo.Rack("krack"))
+		installPrefer(st)
+	}
+	if os.Getenv("VERIF_DEBUG") != "" && os.Getenv("VERIF_KGOLOG") != "" {
+		opts = append(opts, kgo.WithLogger(kgo.BasicLogger(os.Stderr, kgo.LogLevelDebug, func() string {
+			return fmt.Sprintf("[%8.3fs]   kgo: ", x.Elapsed().Seconds())
+		})))
+	}
+	st.cl = nscen.NewClient(x, "c", c, append(opts, extra...)...)
+	st.stop = make(chan struct{})
+	x.OnCleanup(func() { close(st.stop) })
+	x.FrameHook = func(conn *netctl.Conn, dir string, key, ver int16, frame []byte) {
+		if conn.Client == "c" && dir == "req" && key == 1 {
+			now := time.Now()
+			st.mu.Lock()
+			if st.firstFetch < 0 {
+				st.firstFetch = conn.Broker
+				st.cond.Broadcast()
+			}
+			if now.Sub(st.lastFetch) <= time.Millisecond {
+				st.sameTick++
+			} else {
+				st.sameTick = 0
+			}
+			st.lastFetch = now
+			slow := st.sameTick >= 20
+			st.mu.Unlock()
+			// The proxy delivers in zero virtual time. A client that
+			// re-issues fetches with no pacing while it waits for a timer
+			// (a partition answering NOT_LEADER next to a healthy one,
+			// with the metadata refresh in its retry backoff) would then
+			// spin forever at one virtual instant. After 20 back-to-back
+			// fetch round trips every further one costs 1 ms of latency.
+			if slow {
+				x.Count("fetch-spin-latency", 1)
+				time.Sleep(time.Millisecond)
+			}
+		}
+	}
+	return st
+}
+
 func scenario(v *variant) *netctl.Scenario {
 	return &netctl.Scenario{
 		Name:      v.name,
@@ -304,91 +443,8 @@ func scenario(v *variant) *netctl.Scenario {
 		Horizon:   3 * time.Minute,
 		MaxPoints: 400,
 		Setup: func(x *netctl.Exec) {
-			c := x.Cluster(2, kfake.SeedTopics(2, topic))
-			c.MoveTopicPartition(topic, 0, 0)
-			if v.oneSource {
-				c.MoveTopicPartition(topic, 1, 0)
-			} else {
-				c.MoveTopicPartition(topic, 1, 1)
-			}
-			preload(x, c)
-			st := &state{v: v, c: c, x: x, hooks: nscen.NewHookLedger(), firstFetch: -1}
-			if ti := c.TopicInfo(topic); ti != nil {
-				st.topicID = ti.TopicID
-			}
-			st.cond = sync.NewCond(&st.mu)
-			x.Data = st
-			for p := int32(0); p < 2; p++ {
-				st.raw[p] = nscen.ReadRaw(x, c, topic, p)
-				st.kind[p], st.value[p], st.expected[p], st.seen[p] = map[int64]string{}, map[int64]string{}, map[int64]bool{}, map[int64]int{}
-				st.last[p] = -1
-				visible, open := nscen.Committed(st.raw[p])
-				if len(open) > 0 {
-					x.Violate("harness:preload", "t/%d has open transactions after preload", p)
-				}
-				vis := map[int64]bool{}
-				for _, r := range visible {
-					vis[r.Offset] = true
-				}
-				ndata, nctl, nab := 0, 0, 0
-				for _, r := range st.raw[p] {
-					st.value[p][r.Offset] = r.Value
-					switch {
-					case r.Control:
-						st.kind[p][r.Offset] = "control"
-						nctl++
-					case v.rc && !vis[r.Offset]:
-						st.kind[p][r.Offset] = "aborted"
-						nab++
-					case r.Offset < st.startOf(p):
-						st.kind[p][r.Offset] = "before-start"
-					default:
-						st.kind[p][r.Offset] = "data"
-						st.expected[p][r.Offset] = true
-						ndata++
-					}
-					if !r.Control && !vis[r.Offset] && !v.rc {
-						nab++
-					}
-				}
-				if nctl != 2 || nab == 0 || ndata == 0 {
-					x.Violate("harness:preload", "t/%d: unexpected log shape: %d control, %d aborted, %d expected", p, nctl, nab, ndata)
-				}
-			}
-			opts := []kgo.Opt{
-				kgo.FetchMaxWait(500 * time.Millisecond),
-				kgo.WithHooks(st.hooks),
-			}
-			if v.starts != nil {
-				parts := map[int32]kgo.Offset{}
-				for p, o := range v.starts {
-					parts[p] = kgo.NewOffset().At(o)
-				}
-				opts = append(opts, kgo.ConsumePartitions(map[string]map[int32]kgo.Offset{topic: parts}))
-			} else {
-				opts = append(opts, kgo.ConsumeTopics(topic), kgo.ConsumeResetOffset(kgo.NewOffset().AtStart()))
-			}
-			if v.rc {
-				opts = append(opts, kgo.FetchIsolationLevel(kgo.ReadCommitted()))
-			}
-			if v.partBytes > 0 {
-				opts = append(opts, kgo.FetchMaxPartitionBytes(v.partBytes))
-			}
-			if v.metaAge > 0 {
-				opts = append(opts, kgo.MetadataMaxAge(v.metaAge))
-			}
-			if v.prefer {
-				opts = append(opts, kgo.Rack("krack"))
-				installPrefer(st)
-			}
-			if os.Getenv("VERIF_DEBUG") != "" && os.Getenv("VERIF_KGOLOG") != "" {
-				opts = append(opts, kgo.WithLogger(kgo.BasicLogger(os.Stderr, kgo.LogLevelDebug, func() string {
-					return fmt.Sprintf("[%8.3fs]   kgo: ", x.Elapsed().Seconds())
-				})))
-			}
-			st.cl = nscen.NewClient(x, "c", c, opts...)
-			st.stop = make(chan struct{})
-			x.OnCleanup(func() { close(st.stop) })
+			st := newState(x, v)
+			c := st.c
 
 			t1 := func(t *netctl.Thread) {
 				defer func() {
@@ -495,34 +551,6 @@ func scenario(v *variant) *netctl.Scenario {
 					st.appendAfterMove(1)
 				}
 			}
-			x.FrameHook = func(conn *netctl.Conn, dir string, key, ver int16, frame []byte) {
-				if conn.Client == "c" && dir == "req" && key == 1 {
-					now := time.Now()
-					st.mu.Lock()
-					if st.firstFetch < 0 {
-						st.firstFetch = conn.Broker
-						st.cond.Broadcast()
-					}
-					if now.Sub(st.lastFetch) <= time.Millisecond {
-						st.sameTick++
-					} else {
-						st.sameTick = 0
-					}
-					st.lastFetch = now
-					slow := st.sameTick >= 20
-					st.mu.Unlock()
-					// The proxy delivers in zero virtual time. A client that
-					// re-issues fetches with no pacing while it waits for a timer
-					// (a partition answering NOT_LEADER next to a healthy one,
-					// with the metadata refresh in its retry backoff) would then
-					// spin forever at one virtual instant. After 20 back-to-back
-					// fetch round trips every further one costs 1 ms of latency.
-					if slow {
-						x.Count("fetch-spin-latency", 1)
-						time.Sleep(time.Millisecond)
-					}
-				}
-			}
 			for _, name := range strings.Split(v.order, ",") {
 				switch name {
 				case "T1":
@@ -534,71 +562,77 @@ func scenario(v *variant) *netctl.Scenario {
 				}
 			}
 		},
-		Final: func(x *netctl.Exec) {
-			st := x.Data.(*state)
-			// Pass-through: T1 runs its remaining polls freely; polls stay
-			// sequential, so wait for it (bounded by pollBudget x 2 s).
-			deadline := time.Now().Add(2 * time.Minute)
-			for !x.ThreadsDone() && time.Now().Before(deadline) {
-				time.Sleep(50 * time.Millisecond)
-			}
-			if !x.ThreadsDone() {
-				x.Violate("harness:threads-stuck", "application threads still running 2 virtual minutes into pass-through")
-				return
-			}
-			t1polls := len(st.polls)
-			// Completeness: the environment is well behaved from here on.
-			for !st.complete() && time.Now().Before(deadline) {
-				st.doPoll("final", 0, 2*time.Second)
-			}
-			if miss := st.missing(); len(miss) > 0 {
-				x.Violate("missing-records", "not returned within 2 virtual minutes of a fault-free suffix: %v (returned so far: t/0 up to %d, t/1 up to %d)", miss, st.last[0], st.last[1])
-			}
-			// Nothing else exists in the log: three more long-poll periods
-			// must return nothing (late duplicates would show up here).
-			extra := 0
-			for i := 0; i < 3; i++ {
-				extra += st.doPoll("extra", 0, 600*time.Millisecond)
-			}
-			if len(st.missing()) == 0 && extra == 0 {
-				if n, b := st.cl.BufferedFetchRecords(), st.cl.BufferedFetchBytes(); n != 0 || b != 0 {
-					x.Violate("hook-buffered-nonzero", "everything was polled, nothing is buffered, but BufferedFetchRecords=%d BufferedFetchBytes=%d", n, b)
-				}
-			}
-			st.cl.Close()
-			st.hooks.CheckFetch(x)
-			if n, b := st.cl.BufferedFetchRecords(), st.cl.BufferedFetchBytes(); n != 0 || b != 0 {
-				x.Violate("hook-buffered-nonzero-closed", "client closed but BufferedFetchRecords=%d BufferedFetchBytes=%d", n, b)
-			}
-			// Terminal outcome: what each T1 poll returned, how many polls the
-			// completion needed, error classes surfaced.
-			var sb strings.Builder
-			for i, pl := range st.polls {
-				if i >= t1polls {
-					break
-				}
-				fmt.Fprintf(&sb, "%d:%d/%d ", pl.n, pl.got[0], pl.got[1])
-			}
-			errs := map[string]bool{}
-			for _, pl := range st.polls {
-				for _, e := range pl.errs {
-					errs[e] = true
-				}
-			}
-			var es []string
-			for e := range errs {
-				es = append(es, e)
-			}
-			sort.Strings(es)
-			fin := 0
-			for _, pl := range st.polls[t1polls:] {
-				if pl.who == "final" {
-					fin++
-				}
-			}
-			x.Observe("%sfinal=%d inpause=%d moved=%s errs=%v", sb.String(), fin, st.pausedPoll, st.moved, es)
-		},
+		Final: finalConsumer,
 	}
+}
+
+// finalConsumer is the Final phase of every scenario of the family.
+func finalConsumer(x *netctl.Exec) {
+	st := x.Data.(*state)
+	// Pass-through: T1 runs its remaining polls freely; polls stay
+	// sequential, so wait for it (bounded by pollBudget x 2 s).
+	deadline := time.Now().Add(2 * time.Minute)
+	for !x.ThreadsDone() && time.Now().Before(deadline) {
+		time.Sleep(50 * time.Millisecond)
+	}
+	if !x.ThreadsDone() {
+		x.Violate("harness:threads-stuck", "application threads still running 2 virtual minutes into pass-through")
+		return
+	}
+	t1polls := len(st.polls)
+	// Generated scripts may end with something still paused: the
+	// application resumes exactly that before it expects the rest.
+	st.resumeStillPaused()
+	// Completeness: the environment is well behaved from here on.
+	for !st.complete() && time.Now().Before(deadline) {
+		st.doPoll("final", 0, 2*time.Second)
+	}
+	if miss := st.missing(); len(miss) > 0 {
+		x.Violate("missing-records", "not returned within 2 virtual minutes of a fault-free suffix: %v (returned so far: t/0 up to %d, t/1 up to %d)", miss, st.last[0], st.last[1])
+	}
+	// Nothing else exists in the log: three more long-poll periods
+	// must return nothing (late duplicates would show up here).
+	extra := 0
+	for i := 0; i < 3; i++ {
+		extra += st.doPoll("extra", 0, 600*time.Millisecond)
+	}
+	if len(st.missing()) == 0 && extra == 0 {
+		if n, b := st.cl.BufferedFetchRecords(), st.cl.BufferedFetchBytes(); n != 0 || b != 0 {
+			x.Violate("hook-buffered-nonzero", "everything was polled, nothing is buffered, but BufferedFetchRecords=%d BufferedFetchBytes=%d", n, b)
+		}
+	}
+	st.cl.Close()
+	st.hooks.CheckFetch(x)
+	if n, b := st.cl.BufferedFetchRecords(), st.cl.BufferedFetchBytes(); n != 0 || b != 0 {
+		x.Violate("hook-buffered-nonzero-closed", "client closed but BufferedFetchRecords=%d BufferedFetchBytes=%d", n, b)
+	}
+	// Terminal outcome: what each T1 poll returned, how many polls the
+	// completion needed, error classes surfaced.
+	var sb strings.Builder
+	for i, pl := range st.polls {
+		if i >= t1polls {
+			break
+		}
+		fmt.Fprintf(&sb, "%d:%d/%d ", pl.n, pl.got[0], pl.got[1])
+	}
+	errs := map[string]bool{}
+	for _, pl := range st.polls {
+		for _, e := range pl.errs {
+			errs[e] = true
+		}
+	}
+	var es []string
+	for e := range errs {
+		es = append(es, e)
+	}
+	sort.Strings(es)
+	fin := 0
+	for _, pl := range st.polls[t1polls:] {
+		if pl.who == "final" {
+			fin++
+		}
+	}
+	x.Observe("%sfinal=%d inpause=%d moved=%s errs=%v", sb.String(), fin, st.pausedPoll, st.moved, es)
 }
 
 // installPrefer makes broker 1 (leader of t/1) answer the consumer's fetches
